@@ -30,7 +30,7 @@ CONSTANTS
   UidSets <- LowUidSets
   DateModes = {"ww", "wu", "uw", "uu"}
   Devs = {"BodyKeyMatchesHeaders", "UidSearchSeqSetAsUid", "DoubleNotRejected"}
-  NumMb = 40
+  NumMb = 24
   NumLeaf = 40
   NumLeafSets = 6
   LeafSetSize = 4
